@@ -66,6 +66,69 @@ CHECKS = {
     },
 }
 
+CHECKS.update({
+    "C07": {
+        "technique": "property-based metamorphic testing over a deterministic measurement: executed-line counts (sys.settrace restricted to indicator/analysis/utils code) of single appends at three history lengths 100/400/1600 (thorough 200/1600/6400) on generated tiled streams, for every indicator class, analysis wrapper, a user-style sparse-signal wrapper and Hexitals holding several",
+        "level": EXPL + " No wall-clock time is used anywhere.",
+        "ref": "DESIGN.md section 4 C07",
+        "note": "Work = executed Python lines in hexital/indicators, hexital/analysis, core/indicator.py, utils/candles.py, utils/indexing.py; work hidden inside C builtins (list copies) is not visible.",
+    },
+    "C08": {
+        "technique": "property-based differential testing: generated Hexitals (1-5 members as object / config dict / .settings dict, mixed timeframes, Hexital-level timeframe, fill, lifespan, Heikin-Ashi, constructor/append supply) against standalone twins with the effective configuration fed the same stream; settings round trip; every class enumerated once in settings form",
+        "level": EXPL,
+        "ref": "DESIGN.md section 4 C08",
+        "note": "The effective configuration of a member is read off Hexital._validate_indicators; member timeframes are multiples of the Hexital's; one open known finding (D33) is excluded by an exact mechanism predicate.",
+    },
+    "C09": {
+        "technique": "property-based testing of a validity predicate (no exception, finite values only, no gap after the first value per output field) on generators biased to degenerate regimes: flat from the start, flat tails, monotone runs, zero-volume windows, fill-inserted flats, volume inputs that dry up; one shard per class and wrapper",
+        "level": EXPL,
+        "ref": "DESIGN.md section 4 C09",
+        "note": "Inputs restricted to what the statement admits (finite positive prices, volume >= 0); exceptions bucketed by (type, innermost library frame).",
+    },
+    "C10": {
+        "technique": "property-based testing of named structural invariants (ranges, orderings, identities, rounding) over generated configurations incl. round_value 0..8 and collapsing timeframes",
+        "level": EXPL,
+        "ref": "DESIGN.md section 4 C10",
+        "note": "Slack per relation is the rounding of the fields involved, stated in the code; DI lines are only bounded below (they may legitimately pass 100 at start-up).",
+    },
+    "C13": {
+        "technique": "property-based model-based testing with generated operation programs (purge / recalculate / remove_indicator / calculate / append aimed at one member) against solo-twin Hexitals, with templates that force name relationships; all ordered pairs of the registry enumerated",
+        "level": EXPL + " The ordered-pair sub-domain (44 x 43 pairs at fixed parameters) is enumerated completely.",
+        "ref": "DESIGN.md section 4 C13",
+        "note": "Operation programs are generated as data (lists) and interpreted, so the shrunk program is the replay file.",
+    },
+    "C14": {
+        "technique": "property-based stateful testing: generated maintenance programs (append, calculate, purge, recalculate, calculate_index +/-i, add_indicator, remove_indicator) interpreted against a model (rows so far, registered set, per-member calculated flag) with a post-condition per operation and convergence to a batch twin",
+        "level": EXPL,
+        "ref": "DESIGN.md section 4 C14",
+        "note": "Purge footprint = keys a solo twin of the member writes; calculate_index is only issued where the statement's precondition holds in the model.",
+    },
+    "C16": {
+        "technique": "property-based metamorphic testing: for every function of the movement and pattern maps, every valid index of generated candle lists with missing readings: f(index=i) == f(candles[:i+1]) == f(index=i-len); Amorph wrapper live vs batch; all (index, length) pairs enumerated on short lists",
+        "level": EXPL,
+        "ref": "DESIGN.md section 4 C16",
+        "note": "Exact comparison of the library with itself on truncated input.",
+    },
+    "C17": {
+        "technique": "property-based testing against reference predicates written from the docstrings (movement), exact geometry formulas, constructed pattern witnesses / single-clause counter-witnesses with margin >= 2, and metamorphic scale/shift invariance on dyadic grids",
+        "level": EXPL,
+        "ref": "DESIGN.md section 4 C17",
+        "note": "Behaviour near a pattern threshold is deliberately not judged; highestbar/lowestbar accept either reading of `length` consistently per case.",
+    },
+    "C19": {
+        "technique": "property-based stateful testing: generated programs interleaving read-only calls with appends in every input encoding, against a twin object that gets the same candles as Candle objects and no reads; deep state comparison after every operation, caller containers compared with a pre-call deep copy, Hexital timeframes compared with the reference resampler",
+        "level": EXPL,
+        "ref": "DESIGN.md section 4 C19",
+        "note": "State = all instance attributes recursively through helper indicators plus the deep candle snapshot.",
+    },
+    "C20": {
+        "technique": "property-based testing of pairwise accessor agreement on generated Hexitals whose members legitimately read 0 / False / dicts, for every plain and dotted name and every in-range positive and negative index",
+        "level": EXPL,
+        "ref": "DESIGN.md section 4 C20",
+        "note": "The per-candle dicts are the reference the accessors are compared with.",
+    },
+})
+
 _PENDING = "check under construction in this session; will be claimed once it is silent on the unchanged tree and has caught a seeded change"
 NOT_APPLICABLE = [
     {"property_id": f"C{n:02d}", "reason": _PENDING}
